@@ -58,6 +58,8 @@ val add : nat -> nat -> nat
 
 val mul : nat -> nat -> nat
 
+val sub : nat -> nat -> nat
+
 val eqb : bool -> bool -> bool
 
 type positive =
@@ -81,6 +83,8 @@ module Nat :
   val leb : nat -> nat -> bool
 
   val ltb : nat -> nat -> bool
+
+  val max : nat -> nat -> nat
  end
 
 module Pos :
@@ -146,6 +150,12 @@ val ascii_of_N : n -> char
 val n_of_digits : bool list -> n
 
 val n_of_ascii : char -> n
+
+val nth : nat -> 'a1 list -> 'a1 -> 'a1
+
+val nth_error : 'a1 list -> nat -> 'a1 option
+
+val last : 'a1 list -> 'a1 -> 'a1
 
 val concat : 'a1 list list -> 'a1 list
 
@@ -329,6 +339,8 @@ val str_split_aux : char -> char list -> char list -> char list list
 
 val str_split : char -> char list -> char list list
 
+val str_remove_char : char -> char list -> char list
+
 val str_contains_char : char -> char list -> bool
 
 val str_ltb : char list -> char list -> bool
@@ -433,6 +445,8 @@ val n_left : node -> node option
 
 val n_right : node -> node option
 
+val term : char list -> node
+
 val un : astop -> node -> node
 
 val bin : astop -> node -> node -> node
@@ -536,6 +550,8 @@ val r_children : relation -> feature list
 type ctc = { c_name : char list; c_ast : node }
 
 type fm = { root : feature; ctcs : ctc list }
+
+val mk_info : char list -> finfo
 
 val fsize : feature -> nat
 
@@ -816,6 +832,204 @@ val fm_hash_key :
   (char list -> char list) -> fm -> ((char list * char list list) * rkey
   list) * char list list
 
+type path = (nat * nat) list
+
+type ptr =
+| PNone
+| PPath of path
+| PExt
+
+type pfeature =
+| PFeature of finfo * ptr * ptr list * prelation list
+and prelation =
+| PRelation of ptr * z * z * pfeature list
+
+type pfm = { proot : pfeature; pctcs : ctc list }
+
+val jt_FEATURE : char list
+
+val jt_XOR : char list
+
+val jt_OR : char list
+
+val jt_MUTEX : char list
+
+val jt_CARDINALITY : char list
+
+val jt_OPTIONAL : char list
+
+val jt_MANDATORY : char list
+
+val json_relation_type : relation -> char list
+
+val json_attributes : attr list -> aval list
+
+val json_tree : feature -> aval
+
+val json_of_data : ndata -> aval
+
+val json_ctc : node -> aval result
+
+val json_constraints : ctc list -> aval list result
+
+val json_write : fm -> aval result
+
+val assoc : char list -> (char list * aval) list -> aval option
+
+val jget : char list -> aval -> aval result
+
+val jhas : char list -> aval -> bool
+
+val jlist : aval -> aval list result
+
+val jstr : aval -> char list result
+
+val jint : aval -> z result
+
+val json_read_attributes : aval -> attr list result
+
+val json_abstract : aval -> aval
+
+val json_relation_cards : char list -> aval -> nat -> (z * z) result
+
+val json_parse_tree : nat -> path -> ptr -> aval -> pfeature result
+
+val data_of_json : aval -> ndata result
+
+val reduce_op : astop -> node list -> node result
+
+val nth_operand : aval list -> nat -> aval result
+
+val json_parse_ctc : nat -> aval -> node result
+
+val aval_depth : aval -> nat
+
+val json_read : aval -> pfm result
+
+val glencoe_ctc_type : astop -> char list option
+
+val dict_set :
+  (char list * aval) list -> char list -> aval -> (char list * aval) list
+
+val glencoe_feature_type : feature -> char list
+
+val glencoe_feature_info : feature option -> feature -> aval
+
+val glencoe_features : fm -> aval
+
+val glencoe_tree : feature -> aval
+
+val glencoe_ctc : node -> aval result
+
+val glencoe_write : fm -> aval result
+
+val jbool : aval -> bool result
+
+val finfo_get : aval -> aval -> char list -> aval result
+
+val count_true_prefix : bool list -> nat -> nat
+
+val glencoe_parse_tree : nat -> aval -> path -> ptr -> aval -> pfeature result
+
+val glencoe_parse_ctc : nat -> aval -> aval -> node result
+
+val glencoe_read : aval -> pfm result
+
+val fide_TAG_FEATUREMODEL : char list
+
+val fide_TAG_STRUCT : char list
+
+val fide_TAG_FEATURE : char list
+
+val fide_TAG_CONSTRAINTS : char list
+
+val fide_TAG_GRAPHICS : char list
+
+val fide_TAG_DESCRIPTION : char list
+
+val fide_TAG_AND : char list
+
+val fide_TAG_OR : char list
+
+val fide_TAG_ALT : char list
+
+val fide_TAG_RULE : char list
+
+val fide_TAG_VAR : char list
+
+val fide_TAG_NOT : char list
+
+val fide_TAG_IMP : char list
+
+val fide_TAG_DISJ : char list
+
+val fide_TAG_CONJ : char list
+
+val fide_TAG_EQ : char list
+
+val fide_ATTRIB_NAME : char list
+
+val fide_ATTRIB_ABSTRACT : char list
+
+val fide_ATTRIB_MANDATORY : char list
+
+val fide_ctc_type : astop -> char list option
+
+type xml =
+| Elem of char list * (char list * char list) list * char list option
+   * xml list
+
+val x_tag : xml -> char list
+
+val x_attrs : xml -> (char list * char list) list
+
+val x_children : xml -> xml list
+
+val sassoc : char list -> (char list * char list) list -> char list option
+
+val aval_truthy : aval -> bool
+
+val fide_tag : feature -> char list
+
+val fide_attributes :
+  feature option -> feature -> (char list * char list) list
+
+val fide_elem : feature option -> feature -> xml
+
+type cinfo =
+| CVar of char list
+| COp of char list * cinfo list
+
+val fide_ctc_info : node -> cinfo result
+
+val fide_ctc_elem : cinfo -> xml
+
+val fide_write : fm -> xml result
+
+val fide_skipped : xml -> bool
+
+val fide_read_features :
+  xml -> path -> ptr -> bool -> (pfeature * bool) list result
+
+val fide_parse_rule : xml -> node result
+
+val fide_read_constraints : xml -> ctc list result
+
+val fide_read : xml -> pfm result
+
+val xattr : char list -> xml -> char list option
+
+val tag_is : char list -> xml -> bool
+
+val xint : char list -> xml -> z result
+
+val fama_parse_feature :
+  xml -> path -> ptr -> char list list -> (pfeature * char list list) result
+
+val fama_parse_ctc : xml -> char list list -> ctc result
+
+val fama_read : xml -> pfm result
+
 val e_aval : aval -> sexp
 
 val d_aval : sexp -> aval option
@@ -851,6 +1065,16 @@ val d_ctc : sexp -> ctc option
 val e_fm : fm -> sexp
 
 val d_fm : sexp -> fm option
+
+val e_ptr : ptr -> sexp
+
+val e_pfeature : pfeature -> sexp
+
+val e_pfm : pfm -> sexp
+
+val e_xml : xml -> sexp
+
+val d_xml : sexp -> xml option
 
 val e_names : feature list -> sexp
 
